@@ -240,6 +240,21 @@ def replay_history(tname, ops, vals):
                      reference=ref[:2], after_history=a[:2])
 
 
+def _unseeded_after_global_seed(tname, vals):
+    v = dict(vals)
+    v["seed"] = None
+    numpy.random.seed(1234)
+    a = real_run(tname, [], v)
+    numpy.random.seed(1234)
+    b = real_run(tname, [], v)
+    return a, b
+
+
+def replay_unseeded_global(tname, vals):
+    a, b = harness.pristine_eval(_unseeded_after_global_seed, tname, vals)
+    return a == b, dict(what="two unseeded %s screens made after numpy.random.seed(1234) are %s" % (tname, "IDENTICAL" if a == b else "different"))
+
+
 def replay_differ(tname, s1, s2, vals):
     s1, s2 = int(round(float(s1))), int(round(float(s2)))
     if s1 == s2 or s1 < 0 or s2 < 0:
@@ -398,6 +413,16 @@ def case_differ(ctx, tname):
         # the screens are functions of disjoint sets of independent draws, hence not forced equal; one pixel is also
         # handed to the solver (expected sat)
         ctx.prove("path%d: different seeds read disjoint draws" % pi, hyp, z3.BoolVal(bool(da) and not (da & db)), replay=lambda m: (True, dict(what="two seeds share draws")), axioms=False)
+        # unseeded screens made after the global NumPy state was reset to the same value must still differ: the library
+        # may not derive its "fresh entropy" from numpy.random's global stream
+        with env.ctxmgr():
+            env.proxy.random.seed(var("gseed"))
+            g1 = target(env, tname, None)
+            env.proxy.random.seed(var("gseed"))
+            g2 = target(env, tname, None)
+        dg1, dg2 = draws(g1[0]), draws(g2[0])
+        ctx.prove("path%d: two unseeded calls made after identical numpy.random.seed(k) read disjoint draws" % pi, hyp,
+                  z3.BoolVal(bool(dg1) and not (dg1 & dg2)), replay=lambda m: replay_unseeded_global(tname, model_params(m)), axioms=False)
         ctx.prove("path%d: two unseeded calls read disjoint draws" % pi, hyp, z3.BoolVal(bool(d1) and not (d1 & d2)), replay=lambda m: (True, dict(what="unseeded calls share draws")), axioms=False)
         ctx.prove("path%d: seeded and unseeded calls read disjoint draws" % pi, hyp, z3.BoolVal(not (da & d1)), replay=lambda m: (True, dict(what="seeded and unseeded share draws")), axioms=False)
         if tname == "ft":
